@@ -436,14 +436,18 @@ class Searcher:
             saved = os.environ.get('PYTHONHASHSEED')
             modname = type(check).__module__
             try:
+                warming = []
                 for hs in self.hashseeds:
+                    # the interpreters are created inside submit() (one per task while none is idle), i.e. under this value of the
+                    # variable; their set-up then runs in parallel for all pools
                     os.environ['PYTHONHASHSEED'] = str(hs)
                     ex = ProcessPoolExecutor(max_workers=per, mp_context=mp.get_context('spawn'), initializer=_spawn_init, initargs=(modname, tier, seed))
-                    warm = [ex.submit(_warm, 0.5) for _ in range(per)]
+                    warming.append((hs, [ex.submit(_warm, 2.0) for _ in range(per)]))
+                    self.pools.append(ex)
+                for hs, warm in warming:
                     got = {f.result(timeout=600) for f in warm}
                     if {g[0] for g in got} != {str(hs)}:
                         raise HarnessError('worker pool did not start under PYTHONHASHSEED=%s: %r' % (hs, got))
-                    self.pools.append(ex)
             finally:
                 if saved is None:
                     os.environ.pop('PYTHONHASHSEED', None)
